@@ -633,6 +633,7 @@ THEOREMS = (
     "downmix_nonneg_unit",
     "stereo_level",
     "tables_wellFormed",
+    "tables_ten",
     "C05_partial",
 )
 
